@@ -2,7 +2,7 @@
    configuration).  Only pinned statements, closed by [exact lemma], with Print Assumptions. *)
 From Coq Require Import List NArith Bool.
 From FT Require Import Model.Base Model.Local Model.Records Model.Spsc Model.Collector Model.System
-     Proofs.SpscProofs Proofs.CollectorProofs Proofs.RecordsProofs Proofs.ApiProofs Proofs.DeliveryProofs Proofs.SystemDeliveryProofs Proofs.DrainProofs.
+     Proofs.SpscProofs Proofs.CollectorProofs Proofs.RecordsProofs Proofs.ApiProofs Proofs.DeliveryProofs Proofs.SystemDeliveryProofs Proofs.DrainProofs Proofs.EndToEndProofs.
 From Coq Require Import Permutation.
 Import ListNotations.
 Open Scope N_scope.
@@ -125,6 +125,96 @@ Theorem C01_registry_invariant :
   forall dbg ringcap stackcap qcap h, reg_inv (fst (run (sys_init dbg ringcap stackcap qcap) h)).
 Proof. exact reachable_reg_inv. Qed.
 
+(* END TO END, the collector's side.  [landed t c s]: the command c is in the ring of thread t,
+   or already in the batch the collector is putting together.  In any reachable state a landed
+   SubmitSpans is reported -- one record per span per token item -- by the process step of
+   the cycle in progress or, at the latest, by that of the next complete cycle: whatever any
+   threads do meanwhile (calls, pushes, exits, spawns), however both drains are interleaved
+   with them, and even if the thread has exited in between (a thread leaves the collector's
+   view only with an empty ring).  Default configuration at both process steps. *)
+Theorem C01_landed_command_is_reported_within_two_cycles :
+  forall dbg ringcap stackcap qcap h0 h1 h2 t sp tk it,
+    let s := fst (run (sys_init dbg ringcap stackcap qcap) h0) in
+    landed t (CSubmit sp tk) s -> In it tk ->
+    no_process h1 ->
+    let s1 := fst (run s h1) in
+    s_pc s1 = PDrained -> s_cancelable s1 = false ->
+    no_process h2 ->
+    let s2 := fst (run s1 (ACProcess :: ACBegin :: h2)) in
+    s_pc s2 = PDrained -> s_cancelable s2 = false ->
+    exists recs st n,
+      (snd (step s1 ACProcess) = OReport recs st n \/ snd (step s2 ACProcess) = OReport recs st n) /\
+      incl (coll_cores (mkColl sp (ti_trace it) (ti_parent it))) (map core3 recs).
+Proof. exact reachable_landed_is_reported_within_two_cycles. Qed.
+
+(* END TO END, the thread's side.  A call made while the thread's sender is idle (nothing
+   waiting to be sent, nothing parked behind a full ring) and the ring has room for what the
+   call sends; then ANY history in which that thread only pushes -- all other threads and the
+   collector do whatever they like, short of the process step; once the thread's outbox is
+   empty, every command of the call has landed. *)
+Theorem C01_commands_of_a_call_land :
+  forall s t c th s1 th1 e1 out r h,
+    tracked s ->
+    get_thread s t = Some th -> th_outbox th = [] ->
+    ch_pending (th_chan th) = [] -> ch_dropping (th_chan th) = false ->
+    exec_call (s_tick s) th (mkEnv (th_prefix th) (th_suffix th) (clock_of_step (s_nstep (s_tick s)))) c
+      = COk s1 th1 e1 out r ->
+    lenN (ch_ring (th_chan th)) + lenN out <= ch_cap (th_chan th) ->
+    all_quiet t h ->
+    let s' := fst (run s (ACall t c :: h)) in
+    (forall th', get_thread s' t = Some th' -> th_outbox th' = []) ->
+    forall cmd, In cmd (map snd out) -> landed t cmd s'.
+Proof. exact call_commands_land. Qed.
+
+Theorem C01_tracked_in_every_reachable_state :
+  forall dbg ringcap stackcap qcap h, tracked (fst (run (sys_init dbg ringcap stackcap qcap) h)).
+Proof. intros. apply run_tracked. apply tracked_init. Qed.
+
+(* BOTH SIDES: in any reachable state, dropping a span of a sampled trace (thread's sender
+   idle, room for two commands in its ring), letting the thread push while everything else
+   runs arbitrarily, and then letting at most two collector cycles complete -- in any
+   interleaving with any threads -- yields a report that contains the span's record under every
+   sampled parent item: (trace, span id, parent). *)
+Theorem C01_finished_span_is_reported :
+  forall dbg ringcap stackcap qcap h0 t hd th sp h h1 h2 it,
+    let s := fst (run (sys_init dbg ringcap stackcap qcap) h0) in
+    get_thread s t = Some th -> th_outbox th = [] ->
+    ch_pending (th_chan th) = [] -> ch_dropping (th_chan th) = false ->
+    get_span (s_tick s) hd = Some (Some sp) ->
+    In it (filter ti_sampled (sp_token sp)) ->
+    lenN (ch_ring (th_chan th)) + 2 <= ch_cap (th_chan th) ->
+    all_quiet t h ->
+    let s' := fst (run s (ACall t (KDropSpan hd) :: h)) in
+    (forall th', get_thread s' t = Some th' -> th_outbox th' = []) ->
+    no_process h1 ->
+    let s1 := fst (run s' h1) in
+    s_pc s1 = PDrained -> s_cancelable s1 = false ->
+    no_process h2 ->
+    let s2 := fst (run s1 (ACProcess :: ACBegin :: h2)) in
+    s_pc s2 = PDrained -> s_cancelable s2 = false ->
+    exists recs st n,
+      (snd (step s1 ACProcess) = OReport recs st n \/ snd (step s2 ACProcess) = OReport recs st n) /\
+      In (ti_trace it, r_id (sp_raw sp), ti_parent it) (map core3 recs).
+Proof. exact finished_span_is_reported. Qed.
+
+(* non-vacuity of the end-to-end theorem: a history that meets every hypothesis (root created
+   and finished on thread 1, two pushes, a cycle), and what the theorem then promises *)
+Example C01_finished_span_example :
+  let h0 := [AInstall false; ASpawn 1 1 0; ACall 1 (KRoot 1 2 77 5 true); APush 1] in
+  let s := fst (run (sys_init false 8 16 16) h0) in
+  let s' := fst (run s (ACall 1 (KDropSpan 1) :: [APush 1; APush 1])) in
+  let s1 := fst (run s' [ACBegin; ACPop; ACPop; ACPop; ACPop; ACCheck]) in
+  let s2 := fst (run s1 [ACProcess; ACBegin; ACPop; ACCheck]) in
+  (option_map (fun th => (th_outbox th, ch_pending (th_chan th), ch_dropping (th_chan th),
+                          lenN (ch_ring (th_chan th)) + 2 <=? ch_cap (th_chan th))) (get_thread s 1)
+     = Some ([], [], false, true)) /\
+  option_map (fun th => th_outbox th) (get_thread s' 1) = Some [] /\
+  option_map (option_map (fun sp => (r_kind (sp_raw sp), map ti_trace (filter ti_sampled (sp_token sp))))) (get_span (s_tick s) 1)
+     = Some (Some (KSpan, [77])) /\
+  (s_pc s1, s_cancelable s1, s_pc s2, s_cancelable s2) = (PDrained, false, PDrained, false) /\
+  match snd (step s1 ACProcess) with OReport recs _ _ => map core3 recs | _ => [] end = [(77, 4294967297, 5)].
+Proof. vm_compute. repeat split; reflexivity. Qed.
+
 (* non-vacuity: a child span submitted in one cycle and its root (with the commit) in the
    next are both reported, each once *)
 Example C01_two_cycles_example :
@@ -149,3 +239,7 @@ Print Assumptions C01_default_popped_commands_delivered_exactly.
 Print Assumptions C01_every_reachable_default_report_is_exact.
 Print Assumptions C01_cycle_drains_every_ring.
 Print Assumptions C01_registry_invariant.
+Print Assumptions C01_landed_command_is_reported_within_two_cycles.
+Print Assumptions C01_commands_of_a_call_land.
+Print Assumptions C01_tracked_in_every_reachable_state.
+Print Assumptions C01_finished_span_is_reported.
